@@ -1,6 +1,7 @@
 #include "host.hpp"
 #include "prng.hpp"
 
+#include <algorithm>
 #include <cerrno>
 #include <cstdio>
 #include <cstdlib>
@@ -67,6 +68,14 @@ std::string EventLog::hashHex() const {
 //=============================================================================================
 SimInBuf::int_type SimInBuf::underflow() {
   HarnessScope hs;
+  if (blockMode && fetched < data.size()) {
+    size_t n = std::min<size_t>(4096, data.size() - fetched);
+    block.assign(data, fetched, n);
+    fetched += n;
+    setg(&block[0], &block[0], &block[0] + n);
+    g_log.ev("in_block", (uint64_t)id, n);
+    return traits_type::to_int_type(block[0]);
+  }
   if (fetched < data.size()) {
     cur = data[fetched++];
     setg(&cur, &cur, &cur + 1);
@@ -93,8 +102,11 @@ std::streamsize SimOutBuf::xsputn(const char *s, std::streamsize n) {
   return n;
 }
 
+StdStreams *g_stdStreams = nullptr;
+
 void StdStreams::attach(const std::string &input) {
   HarnessScope hs;
+  g_stdStreams = this;
   in.load(input);
   out.clear();
   err.clear();
@@ -107,6 +119,7 @@ void StdStreams::attach(const std::string &input) {
   }
 }
 void StdStreams::detach() {
+  if (g_stdStreams == this) g_stdStreams = nullptr;
   if (!attached) return;
   std::cin.rdbuf(oldIn); std::cout.rdbuf(oldOut); std::cerr.rdbuf(oldErr);
   std::cin.clear(); std::cout.clear(); std::cerr.clear();
@@ -272,6 +285,24 @@ int mkdir(const char *path, mode_t mode) {
   static mkdir_fn real = (mkdir_fn)dlsym(RTLD_NEXT, "mkdir");
   return real(path, mode);
 }
+}
+
+//=============================================================================================
+// std::ios_base::sync_with_stdio: defined here, it pre-empts libstdc++'s, which would throw away
+// the simulated buffers of cin/cout/cerr and attach the real descriptors.  The simulated meaning:
+// cin takes its input a block at a time from then on (see SimInBuf::blockMode).
+//=============================================================================================
+bool std::ios_base::sync_with_stdio(bool sync) {
+  static bool state = true;
+  if (sim::g_stdStreams && sim::g_harnessDepth == 0) {
+    sim::g_log.ev("sync_with_stdio", sync ? 1 : 0);
+    bool prev = !sim::g_stdStreams->in.blockMode;
+    if (!sync) sim::g_stdStreams->in.blockMode = true;      // switching back is not possible once I/O has happened
+    return prev;
+  }
+  bool prev = state;
+  state = sync;
+  return prev;
 }
 
 //=============================================================================================
